@@ -8,6 +8,7 @@ from __future__ import annotations
 
 import concurrent.futures as cf
 import json
+import time
 
 from harness import kit, ser
 
@@ -219,7 +220,7 @@ def classify(out, verdicts, byid):
 
 
 def judge(out, recs, wd):
-    shards = kit.write_shards(recs, wd / "trace", "c08", 6000)
+    shards = kit.write_shards(recs, wd / "trace", "c08", 5000)
     verdicts, st, tr = kit.judge_shards("C08_Judge", "C08_Judge", shards)
     out.states += st
     out.transitions += tr
@@ -235,6 +236,7 @@ def negative_controls(bugs):
                         tag=f"C08_Gen.Buggy_{b}")
         return b, r
     res = {}
+    t0 = time.time()
     with cf.ThreadPoolExecutor(max_workers=3) as ex:
         for b, r in ex.map(one, bugs):
             if "Lemma" not in r.invariant_violated:
@@ -242,6 +244,7 @@ def negative_controls(bugs):
                 raise kit.MachineryError(
                     f"negative control Bug={b}: TLC did not refute the lemma\n{tail}")
             res[b] = "lemma refuted"
+    kit.log(f"C08: {len(bugs)} negative controls refuted by TLC ({time.time() - t0:.1f}s, in background)")
     return res
 
 
@@ -272,7 +275,7 @@ def run(tier, seed, out):
         if not cases or not agg:
             raise kit.MachineryError("C08 generator printed no cases / no aggregate-lemma witness")
         if tier == "thorough":
-            rnd = kit.run_tlc("C08_Gen", "C08_Gen_sim", simulate="num=20000", depth=14, seed=seed)
+            rnd = kit.run_tlc("C08_Gen", "C08_Gen_sim", simulate="num=500", depth=20, seed=seed)
             kit.require_clean(rnd, "C08 random trees (-simulate)")
             out.add_tlc(rnd)
             more, d2, a2 = collect(rnd, out)
@@ -324,6 +327,7 @@ def replay(path, out):
     d = json.loads(open(path).read())
     case = d["detail"]["case"]
     recs = kit.drive("harness.c08", "drive_case", [case], None)
+    out.evaluations += sum(sum(1 for r in rec["res"] if r["r"] != "na") for rec in recs)
     vs = judge(out, recs, wd)
     kit.log(f"C08 replay: recorded {json.dumps(recs[0])[:2000]}")
     kit.log(f"C08 replay: verdicts {vs}")
